@@ -191,7 +191,9 @@ def mpo_case(ctx, idx, rng):
     kind = ('complex', 'real', 'int', 'mixed')[(idx // 5) % 4]
     mode = ('left', 'right')[idx % 2]
     qd = _qd(rng, d, layout)
-    src = str(rng.choice(['random', 'random', 'model', 'over', 'disjoint', 'zero-param-model', 'charge-diagonal']))
+    src = str(rng.choice(['random', 'random', 'model', 'over', 'disjoint', 'zero-param-model', 'charge-diagonal', 'structured-blocks']))
+    if src == 'structured-blocks' and (d < 2 or np.any(qd)):
+        src = 'random'
     struct = STRUCT[(idx // 3) % len(STRUCT)]
     if src == 'charge-diagonal' and (L < 2 or not np.any(qd - qd[0])):
         src = 'random'
@@ -207,6 +209,9 @@ def mpo_case(ctx, idx, rng):
     elif src == 'model' and d >= 2:
         name = {2: 'xxz', 3: 'xxz1'}[d]
         op = gen.model(name, L, gen.generic_params(rng)) if L >= 2 else gen.rand_mpo(rng, qd, L, 4, kind)
+    elif src == 'structured-blocks':
+        # tensors assembled from structured operator blocks (zero blocks, identities, c*I + g*X, projectors, shifts): rank-deficient, exactly repeated columns
+        op = gen.structured_block_mpo(rng, d, L, Dmax=4, cplx=(kind != 'real'))
     elif src == 'charge-diagonal':
         # ALL bond labels zero although the physical labels are not (interaction-only Hamiltonians, t = 0 models), bonds larger than d^2 can fill:
         # rank-deficient QR steps whose completion must still respect the physical labels
